@@ -76,6 +76,29 @@ class PassWorld(World):
                     raise Unsupported("struct pattern against an opaque value")
                 return False
             raise Unsupported("struct pattern %s against %r" % (name, v))
+        if k in ("PTupleStruct", "PTuple") and any(x["k"] == "PRest" for x in p["elems"]):
+            # `Number(meta, ..)`: match the elements before and after the `..`
+            i = [j for j, x in enumerate(p["elems"]) if x["k"] == "PRest"][0]
+            before, after = p["elems"][:i], p["elems"][i + 1:]
+            if k == "PTupleStruct":
+                name = last(p["path"])
+                if not (isinstance(v, tuple) and v and v[0] == "S"):
+                    if isinstance(v, tuple) and v and v[0] in ("V", "E") or v == NONE:
+                        return False
+                    raise Unsupported("tuple struct pattern %s against %r" % (name, v))
+                if v[1] != name:
+                    return False
+                items = v[2]
+            else:
+                if not (isinstance(v, tuple) and v and v[0] == "T"):
+                    raise Unsupported("tuple pattern against %r" % (v,))
+                items = v[1]
+            if len(items) < len(before) + len(after):
+                return False
+            ok = all(self.bind(q, x, env, uses) for q, x in zip(before, items))
+            return ok and all(self.bind(q, x, env, uses) for q, x in zip(after, items[len(items) - len(after):]))
+        if k == "PRest":
+            return True
         if k == "PLit" and isinstance(v, str):
             return self.lit(p["lit"]) == v
         if k == "PTupleStruct" and isinstance(v, tuple) and v and v[0] == "V":
@@ -115,6 +138,9 @@ class PassWorld(World):
                 return ("O", "%s.%s" % (b[1], e["member"]))
         if k == "Call" and e["func"]["k"] == "Path":
             p = e["func"]["path"]
+            if p in env and isinstance(env[p], tuple) and env[p] and env[p][0] == "PY":
+                args = [self.eval(a, env, uses) for a in e["args"]]
+                return env[p][1](*args)
             if p in env and isinstance(env[p], tuple) and env[p] and env[p][0] == "F":
                 args = [self.eval(a, env, uses) for a in e["args"]]
                 return self._free_call(env[p][1], args)
@@ -155,6 +181,86 @@ class PassWorld(World):
                 if m == "len" and not args:
                     return len(recv)
                 raise Unsupported("string method " + m)
+            if (isinstance(recv, Iter) or (isinstance(recv, tuple) and recv and recv[0] == "L")) and m in ("filter_map", "flat_map", "chain", "for_each", "count", "enumerate", "rev", "flatten", "find", "position", "try_for_each", "skip", "take", "zip", "sum", "inspect", "find_map", "max", "min"):
+                it = recv if isinstance(recv, Iter) else Iter(recv[1])
+                args = [self.eval(a, env, uses) for a in e["args"]]
+
+                def some(x):
+                    return isinstance(x, tuple) and len(x) > 1 and x[0] == "S" and x[1] == "Some"
+
+                def seq(x):
+                    if isinstance(x, Iter):
+                        return x.rest()
+                    if isinstance(x, tuple) and x and x[0] == "L":
+                        return list(x[1])
+                    if x == NONE:
+                        return []
+                    if some(x):
+                        return [x[2][0]]
+                    raise Unsupported("not a sequence: %r" % (x,))
+
+                if m == "filter_map" and len(args) == 1:
+                    out = []
+                    for x in it.rest():
+                        r = self.apply(args[0], [x], uses)
+                        if some(r):
+                            out.append(r[2][0])
+                        elif r != NONE:
+                            raise Unsupported("filter_map closure returned %r" % (r,))
+                    return Iter(out)
+                if m == "flat_map" and len(args) == 1:
+                    out = []
+                    for x in it.rest():
+                        out.extend(seq(self.apply(args[0], [x], uses)))
+                    return Iter(out)
+                if m == "flatten" and not args:
+                    out = []
+                    for x in it.rest():
+                        out.extend(seq(x))
+                    return Iter(out)
+                if m == "chain" and len(args) == 1:
+                    return Iter(it.rest() + seq(args[0]))
+                if m in ("for_each", "inspect") and len(args) == 1:
+                    items = it.rest()
+                    for x in items:
+                        self.apply(args[0], [x], uses)
+                    return ("T", ()) if m == "for_each" else Iter(items)
+                if m == "count" and not args:
+                    return len(it.rest())
+                if m == "enumerate" and not args:
+                    return Iter([("T", (i, x)) for i, x in enumerate(it.rest())])
+                if m == "rev" and not args:
+                    return Iter(list(reversed(it.rest())))
+                if m == "zip" and len(args) == 1:
+                    return Iter([("T", (x, y)) for x, y in zip(it.rest(), seq(args[0]))])
+                if m in ("skip", "take") and len(args) == 1 and isinstance(args[0], int):
+                    r = it.rest()
+                    return Iter(r[args[0]:] if m == "skip" else r[:args[0]])
+                if m == "find" and len(args) == 1:
+                    while it.pos < len(it.items):
+                        x = it.items[it.pos]
+                        it.pos += 1
+                        if self.truth(self.apply(args[0], [x], uses)):
+                            return S("Some", x)
+                    return NONE
+                if m == "find_map" and len(args) == 1:
+                    while it.pos < len(it.items):
+                        x = it.items[it.pos]
+                        it.pos += 1
+                        r = self.apply(args[0], [x], uses)
+                        if some(r):
+                            return r
+                    return NONE
+                if m == "position" and len(args) == 1:
+                    i = 0
+                    while it.pos < len(it.items):
+                        x = it.items[it.pos]
+                        it.pos += 1
+                        if self.truth(self.apply(args[0], [x], uses)):
+                            return S("Some", i)
+                        i += 1
+                    return NONE
+                raise Unsupported("iterator method " + m)
             if isinstance(recv, tuple) and recv and recv[0] == "L" and m == "contains" and len(e["args"]) == 1:
                 a = self.eval(e["args"][0], env, uses)
                 if isinstance(a, tuple) and a and a[0] in ("O", "K"):
@@ -164,6 +270,11 @@ class PassWorld(World):
                 args = [self.eval(a, env, uses) for a in e["args"]]
                 i = 0 if m == "first" else args[0]
                 return S("Some", recv[1][i]) if isinstance(i, int) and i < len(recv[1]) else NONE
+            if isinstance(recv, tuple) and recv and recv[0] == "S" and recv[1] in self.variant_owner and recv[1] != "Some":
+                owners = [o for o in self.variant_owner[recv[1]] if (o, m) in self.methods]
+                if len(owners) == 1:
+                    args = [self.eval(a, env, uses) for a in e["args"]]
+                    return self.call_fn(self.methods[(owners[0], m)][0], [recv] + args)
             if isinstance(recv, tuple) and recv and recv[0] == "V":
                 args = [self.eval(a, env, uses) for a in e["args"]]
                 ty = recv[1]
@@ -203,6 +314,26 @@ class PassWorld(World):
                 return ("T", ())
             if name == "format":
                 return ("K", "format", (e.get("raw", ""),))
+        if k in ("Binary", "AssignOp") and e.get("op") in ("|=", "&=", "+=", "-=", "^="):
+            l = e["l"]
+            while l["k"] == "Paren" or (l["k"] == "Unary" and l["op"] == "*"):
+                l = l["e"]
+            if l["k"] != "Path" or l["path"] not in env:
+                raise Unsupported("compound assignment to " + render(e["l"])[:40])
+            a, b = env[l["path"]], self.eval(e["r"], env, uses)
+            op = e["op"][:-1]
+            if op in ("|", "&", "^") and isinstance(a, bool) and isinstance(b, bool):
+                env[l["path"]] = {"|": a or b, "&": a and b, "^": a != b}[op]
+            elif op in ("+", "-") and isinstance(a, int) and isinstance(b, int) and not isinstance(a, bool):
+                env[l["path"]] = a + b if op == "+" else a - b
+            else:
+                raise Unsupported("compound assignment %s on %r" % (e["op"], a))
+            return ("T", ())
+        if k == "Binary" and e["op"] in ("|", "&") :
+            a, b = self.eval(e["l"], env, uses), self.eval(e["r"], env, uses)
+            if isinstance(a, bool) and isinstance(b, bool):
+                return (a or b) if e["op"] == "|" else (a and b)
+            raise Unsupported("bit operation on %r" % (a,))
         if k == "Binary" and e["op"] in ("==", "!="):
             a, b = self.eval(e["l"], env, uses), self.eval(e["r"], env, uses)
             for x in (a, b):
@@ -235,3 +366,66 @@ def run(world, fn, args):
     except (BreakEx, ContinueEx):
         raise Unsupported("break/continue outside a loop")
     return None
+
+
+# ---------------------------------------------------------------- syntax-tree worlds
+class Leaves:
+    """numbered leaf nodes: expression leaves are `Number(meta_i, 0)`, statement leaves `Return { meta, value: leaf }`"""
+
+    def __init__(self):
+        self.metas = []
+
+    def meta(self, tag):
+        m = O("meta#%d:%s" % (len(self.metas), tag))
+        self.metas.append(m)
+        return m
+
+    def expr(self, tag):
+        return S("Number", self.meta(tag), 0)
+
+    def stmt(self, tag):
+        return V("Statement", "Return", meta=O("stmt-meta:" + tag), value=self.expr(tag))
+
+
+def build_node(enum, vname, vdef, leaves, with_optional=True):
+    """an instance of variant `vname` of an AST enum whose node-typed fields are filled with fresh leaves; returns
+    (value, [(field, leaf expression meta)]) - the metas of all expression leaves below it, in field order"""
+    fields = {}
+    below = []
+
+    def leaf_for(ty, tag):
+        ty = ty.replace(" ", "")
+        if ty in ("Expression", "Box<Expression>"):
+            e = leaves.expr(tag)
+            below.append((tag, e[2][0]))
+            return e
+        if ty in ("Statement", "Box<Statement>"):
+            st = leaves.stmt(tag)
+            below.append((tag, st[3]["value"][2][0]))
+            return st
+        if ty in ("Vec<Expression>", "Vec<Statement>"):
+            inner = ty[4:-1]
+            return ("L", tuple(leaf_for(inner, "%s[%d]" % (tag, i)) for i in range(2)))
+        if ty in ("Option<Box<Statement>>", "Option<Box<Expression>>", "Option<Expression>", "Option<Statement>"):
+            if not with_optional:
+                return NONE
+            inner = ty[7:-1]
+            return S("Some", leaf_for(inner, tag))
+        if ty in ("Vec<Access>", "Vec<AccessType>"):
+            return ("L", (S("ArrayAccess", leaf_for("Expression", tag + "[0]")), S("ComponentAccess", "out"), S("ArrayAccess", leaf_for("Expression", tag + "[2]"))))
+        if ty == "Vec<LogArgument>":
+            return ("L", (S("LogStr", "text"), S("LogExp", leaf_for("Expression", tag + "[1]"))))
+        return None
+
+    tuple_like = all(f.get("name", "").isdigit() for f in vdef["fields"]) and vdef["fields"]
+    vals = []
+    for f in vdef["fields"]:
+        v = leaf_for(f["ty"], f.get("name") or "?")
+        if v is None:
+            v = O("%s.%s" % (vname, f.get("name")))
+        if f.get("name") == "meta" or f["ty"].replace(" ", "") == "Meta":
+            v = O("meta-of-%s" % vname)
+        fields[f.get("name")] = v
+        vals.append(v)
+    node = S(vname, *vals) if tuple_like else V(enum, vname, **fields)
+    return node, below
